@@ -568,3 +568,18 @@ func globMatch(pat, s string) bool {
 	}
 	return strings.HasSuffix(s, parts[len(parts)-1])
 }
+
+// Declare registers probes and fault kinds with a zero count, so that one that is never hit
+// shows up in the evidence (probes_never_hit) instead of being silently absent.
+func Declare(probes []string, faults []string) {
+	for _, p := range probes {
+		if _, ok := rs.probes[p]; !ok {
+			rs.probes[p] = 0
+		}
+	}
+	for _, f := range faults {
+		if _, ok := rs.faults[f]; !ok {
+			rs.faults[f] = 0
+		}
+	}
+}
